@@ -50,7 +50,7 @@ def init_maps(built, init):
 
 def ref_for(script, init):
     nl = Netlist.from_script(script)
-    mem_init = {int(k): {int(a): v for a, v in d.items()} for k, d in init.get('mems', {}).items()}
+    mem_init = {str(k): {int(a): v for a, v in d.items()} for k, d in init.get('mems', {}).items()}
     return RefSim(nl, dict(init.get('regs', {})), mem_init, init.get('default', 0))
 
 
